@@ -595,6 +595,17 @@ func registerStr(vm *VM) {
 		vmErr("strings.Replace on symbolic operands")
 		return nil
 	}
+	I["strings.Join"] = func(vm *VM, _ *frame, a []Value) Value {
+		elems := a[0].(Slice)
+		var acc Value = ""
+		for i, e := range elems {
+			if i > 0 {
+				acc = concatStr(acc, a[1])
+			}
+			acc = concatStr(acc, e)
+		}
+		return acc
+	}
 	I["strings.Clone"] = func(vm *VM, _ *frame, a []Value) Value { return a[0] }
 	I["internal/stringslite.Clone"] = func(vm *VM, _ *frame, a []Value) Value { return a[0] }
 	I["strconv.cloneString"] = func(vm *VM, _ *frame, a []Value) Value { return a[0] }
